@@ -181,7 +181,16 @@ func (p *Program) Eval() Expected {
 				}
 			} else {
 				for i := range v {
-					v[i] = in[o.K][vals[o.A][i]&mask]
+					w := in[o.K][vals[o.A][i]&mask]
+					switch o.Sub {
+					case "u8":
+						w = w >> (8 * o.Imm) & 0xff
+					case "i8":
+						w = uint32(int32(int8(w >> (8 * o.Imm))))
+					case "u16":
+						w = w >> (8 * o.Imm) & 0xffff
+					}
+					v[i] = w
 				}
 			}
 			vals = append(vals, v)
